@@ -490,7 +490,18 @@ impl<const P: u8, const G: i8, const N: usize, const D: usize> NbDut<P, G, N, D>
             let e = self.env.borrow();
             (e.txn.nb_timer_late_ms as u64, e.txn.nb_spurious)
         };
+        let mut after_radio_err = false;
         for _ in 0..200 {
+            // a device may abandon the procedure on a radio error (it answers the application's retry of the event
+            // with "radio event while idle"): the operation then ended in that radio error
+            if after_radio_err {
+                if let Err(nb_device::Error::State(s)) = &resp {
+                    if format!("{s:?}") == "RadioEventWhileIdle" {
+                        return OpResult::RadioErr;
+                    }
+                }
+            }
+            after_radio_err = matches!(resp, Err(nb_device::Error::Radio(_)));
             // interpret the last response
             match resp {
                 Ok(R::JoinSuccess) => return OpResult::JoinSuccess,
